@@ -107,6 +107,11 @@ structure DState where
   hist  : List HistOp := []
   line  : Nat := 0
   lost  : Nat := 0
+  /-- A `DeleteShard` / `PruneShard` goroutine parked inside its loop: name, operation, number of
+      thread index, unlinks still to come (it parks before each). -/
+  inflight : Option (String × Nat × Nat) := none
+  /-- Updates begun while it was parked (they wait for the index lock), in order. -/
+  waiting  : List (String × Nat) := []
 
 def showRes (keys : List Key) (r : Res) (withPush : Bool) : String :=
   (if withPush then r.push.tok else "-") ++ " clears=" ++ showClears keys r.clears ++ " all=" ++
@@ -215,10 +220,63 @@ def forceFinish (d : DState) : Nat → List Nat → DState
     | .done _ => forceFinish d fuel rest
     | _ => forceFinish (stepThread d i).1 fuel (i :: rest)
 
+/-- The delete goroutine finishes: the operation takes effect (one region), then the updates that
+    waited for the index lock run to their first gate, in order. -/
+def finishDelete (d : DState) (i : Nat) : DState × String :=
+  let before := d.cfg.heap
+  let c := advance d.fixed d.cfg i
+  let d := finishHist { d with cfg := c, inflight := none } i
+  let (d, toks) := d.waiting.foldl (fun (acc : DState × List String) (w : String × Nat) =>
+    let d := acc.1
+    let c := advance d.fixed d.cfg w.2
+    let d := { d with cfg := c }
+    match pcOf c w.2 with
+    | .done p => (finishHist d w.2, acc.2 ++ [w.1 ++ ":done-" ++ p.tok])
+    | .missed => (d, acc.2 ++ [w.1 ++ ":parked-miss"])
+    | _ => (d, acc.2 ++ [w.1 ++ ":parked"])) (d, [])
+  let d := { d with waiting := [] }
+  (d, schedOut d before ("done -" ++ (if toks.isEmpty then "" else " " ++ ",".intercalate toks)))
+
+/-- `dbegin`: the delete goroutine parks before each unlink; without any it runs through. -/
+def dbegin (d : DState) (name : String) (op? : Option Op) : DState × String :=
+  match op? with
+  | none => (d, "bad-op")
+  | some op =>
+    if (d.names.lookup name).isSome then (d, "bad-op") else
+    let i := d.cfg.threads.length
+    let c := { d.cfg with threads := d.cfg.threads ++ [{ op := op }] }
+    let n := unlinks d.keys d.cfg.heap (advance d.fixed c i).heap
+    let d := { d with cfg := c, names := (name, i) :: d.names,
+                      hist := d.hist ++ [{ id := i, op := op, start := d.line }] }
+    if n = 0 then finishDelete d i else ({ d with inflight := some (name, i, n) }, "dparked")
+
 def stepSched (d : DState) (toks : List String) : DState × String :=
   let d := { d with line := d.line + 1 }
   let before := d.cfg.heap
+  match d.inflight, toks with
+  | some (name, i, remaining), ["step", n] =>
+    if n != name then (d, "bad-op")
+    else if remaining > 1 then ({ d with inflight := some (name, i, remaining - 1) }, "dparked")
+    else finishDelete d i
+  | some _, ["begin", name, sk, k, eps] =>
+    match decOp ["upd", sk, k, eps] with
+    | none => (d, "bad-op")
+    | some op =>
+      if (d.names.lookup name).isSome then (d, "bad-op") else
+      let i := d.cfg.threads.length
+      let c := { d.cfg with threads := d.cfg.threads ++ [{ op := op }] }
+      ({ d with cfg := c, keys := addKeys op d.keys, names := (name, i) :: d.names,
+                hist := d.hist ++ [{ id := i, op := op, start := d.line }],
+                waiting := d.waiting ++ [(name, i)] }, "blocked")
+  | some (_, i, _), ["end"] =>
+    let d := (finishDelete d i).1
+    stepSchedFree d before toks
+  | some _, _ => (d, "bad-op")
+  | none, _ => stepSchedFree d before toks
+where stepSchedFree (d : DState) (before : Heap) (toks : List String) : DState × String :=
   match toks with
+  | ["dbegin", name, "delshard", sk] => dbegin d name (decOp ["delshard", sk])
+  | ["dbegin", name, "prune", sk, keep] => dbegin d name (decOp ["prune", sk, keep])
   | ["begin", name, sk, k, eps] =>
     match decOp ["upd", sk, k, eps] with
     | none => (d, "bad-op")
@@ -264,7 +322,7 @@ def stepSched (d : DState) (toks : List String) : DState × String :=
 
 def showLbEp (e : LbEp) : String :=
   let addr := if e.pipe then "pipe:" ++ enc e.host else enc e.host ++ ":" ++ toString e.port
-  addr ++ "/h" ++ toString e.health ++ "/w" ++ toString e.weight
+  addr ++ "/h" ++ toString e.health ++ "/w" ++ toString e.weight ++ "/t" ++ boolTok e.mtls
 
 /-- Endpoints inside a locality are printed sorted: their order carries no meaning (a report that
     only reorders endpoints is `NoPush`, so the served order may be an older one). -/
